@@ -419,3 +419,65 @@ Proof.
       + rewrite IH. destruct (existsb (fun l0 => fst l0 <? now) l); [reflexivity|]. f_equal. f_equal. lia. }
   rewrite Hrun. destruct (existsb (fun l => fst l <? now) ls); [reflexivity|]. cbn [Z.add]. reflexivity.
 Qed.
+
+(* ---- stateful kernels of x/subaccount/keeper/balance.go: withdrawUnlocked and withdrawLockedAndUnlocked, generated as functions on the
+   state they reach through the keeper (account summary, unlocked total, bank balances of the subaccount and of its owner; SendCoins is the
+   guarded transfer between the two balances) ------------------------------------------------------------------------------------------- *)
+Definition subwd_state (x : subacc) (unl sb ob : Z) : S_subwd :=
+  {| S_subwd_Summary := as_of x; S_subwd_Unlocked := unl; S_subwd_SubBal := sb; S_subwd_OwnerBal := ob |}.
+
+(* = the body of sub_withdraw_unlocked: amount, refusal of a zero amount, Withdraw, then the transfer *)
+Lemma gen_withdrawUnlocked x unl sb ob :
+  K_subwd_withdrawUnlocked (subwd_state x unl sb ob) =
+  let w := Z.min (Z.min (sub_available x) (zmax0 (unl - sa_wd x))) sb in
+  if w =? 0 then None else
+  match sub_withdraw x w with
+  | None => None
+  | Some x' => if sb <? w then None else Some (subwd_state x' unl (sb - w) (ob + w))
+  end.
+Proof.
+  unfold K_subwd_withdrawUnlocked, subwd_state. cbn [S_subwd_Summary S_subwd_Unlocked S_subwd_SubBal S_subwd_OwnerBal].
+  rewrite gen_WithdrawableUnlockedBalance. cbv zeta.
+  set (w := Z.min (Z.min (sub_available x) (zmax0 (unl - sa_wd x))) sb).
+  destruct (w =? 0); [reflexivity|]. rewrite gen_Withdraw. destruct (sub_withdraw x w) as [x'|]; cbn [option_map]; [|reflexivity].
+  cbn [set_S_subwd_Summary set_S_subwd_SubBal set_S_subwd_OwnerBal S_subwd_Summary S_subwd_Unlocked S_subwd_SubBal S_subwd_OwnerBal].
+  destruct (sb <? w); reflexivity.
+Qed.
+
+(* = the subaccount part of sub_wager: the bound, the transfer, then Withdraw *)
+Lemma gen_withdrawLockedAndUnlocked x unl sb ob d :
+  K_subwd_withdrawLockedAndUnlocked (subwd_state x unl sb ob) d =
+  if Z.min (Z.min (sub_available x) sb) d <? d then None else
+  if sb <? d then None else
+  match sub_withdraw x d with None => None | Some x' => Some (subwd_state x' unl (sb - d) (ob + d)) end.
+Proof.
+  unfold K_subwd_withdrawLockedAndUnlocked, subwd_state. cbn [S_subwd_Summary S_subwd_Unlocked S_subwd_SubBal S_subwd_OwnerBal].
+  rewrite gen_WithdrawableBalance. destruct (Z.min (Z.min (sub_available x) sb) d <? d); [reflexivity|].
+  destruct (sb <? d); [reflexivity|].
+  cbn [set_S_subwd_Summary set_S_subwd_SubBal set_S_subwd_OwnerBal S_subwd_Summary S_subwd_Unlocked S_subwd_SubBal S_subwd_OwnerBal].
+  rewrite gen_Withdraw. destruct (sub_withdraw x d); reflexivity.
+Qed.
+
+(* the model's sub_withdraw_unlocked IS the generated handler: state assembled from the chain state, result written back to it *)
+Lemma model_is_withdrawUnlocked s owner x :
+  sub_by_owner (c_subs s) owner = Some x ->
+  sub_withdraw_unlocked s owner =
+  match K_subwd_withdrawUnlocked (subwd_state x (unlocked_total (c_now s) x) (bget (c_bank s) (sub_addr x)) (bget (c_bank s) owner)) with
+  | None => None
+  | Some st => match sub_withdraw x (bget (c_bank s) (sub_addr x) - S_subwd_SubBal st) with
+               | None => None
+               | Some x' => match pay (c_bank s) (sub_addr x) owner (bget (c_bank s) (sub_addr x) - S_subwd_SubBal st) with
+                            | None => None
+                            | Some b => Some (set_bank (with_subs s (set_sub (c_subs s) x')) b)
+                            end
+               end
+  end.
+Proof.
+  intros E. unfold sub_withdraw_unlocked. rewrite E, gen_withdrawUnlocked. cbv zeta.
+  set (w := Z.min (Z.min (sub_available x) (zmax0 (unlocked_total (c_now s) x - sa_wd x))) (bget (c_bank s) (sub_addr x))).
+  destruct (w =? 0); [reflexivity|]. destruct (sub_withdraw x w) as [x'|] eqn:EW; [|reflexivity].
+  destruct (bget (c_bank s) (sub_addr x) <? w) eqn:EL.
+  - unfold pay. rewrite EL. destruct (w <? 0); reflexivity.
+  - cbn [subwd_state S_subwd_SubBal]. replace (bget (c_bank s) (sub_addr x) - (bget (c_bank s) (sub_addr x) - w)) with w by lia.
+    rewrite EW. reflexivity.
+Qed.
